@@ -159,10 +159,10 @@ type c22Pub struct {
 }
 
 type c22Publisher struct {
-	mu     sync.Mutex
+	mu     *sync.Mutex // shared by the publishers of all dispatchers of a run: ONE answer sequence
 	who    string
 	script []string
-	pos    int
+	pos    *int
 	def    string
 	log    *[]c22Pub
 	logMu  *sync.Mutex
@@ -177,10 +177,10 @@ func (p *c22Publisher) Publish(ctx context.Context, e *notification.OutboxEntry)
 	}
 	p.mu.Lock()
 	ans := p.def
-	if p.pos < len(p.script) {
-		ans = p.script[p.pos]
+	if *p.pos < len(p.script) {
+		ans = p.script[*p.pos]
 	}
-	p.pos++
+	*p.pos++
 	p.mu.Unlock()
 	id := ""
 	if e.ID != nil {
@@ -232,7 +232,7 @@ func c22NewSys(d c22Dispatch, script []string, def string) (*c22Sys, error) {
 	s := &c22Sys{w: w, bucket: storage.MustNewBucketName("bkt")}
 	s.inner = &c22Inner{DelegatingStorage: delegator.Wrap(w.Storage)}
 	s.repo = &c22Repo{Repository: notification.NewSQLRepository()}
-	s.pub = &c22Publisher{who: "A", script: script, def: def, log: &s.log, logMu: &s.logMu, hang: make(chan struct{})}
+	s.pub = &c22Publisher{mu: &sync.Mutex{}, pos: new(int), who: "A", script: script, def: def, log: &s.log, logMu: &s.logMu, hang: make(chan struct{})}
 	mw, err := notification.NewStorageMiddleware(s.inner, w.DB, s.repo, s.pub, "default", time.Duration(d.LeaseMs)*time.Millisecond, d.cfg(), prometheus.NewRegistry())
 	if err != nil {
 		return s, err
@@ -834,6 +834,15 @@ func c22Scenarios() map[string]c22Scenario {
 	}
 }
 
+// c22Dispatchers: number of publishes that can be in flight at once (dispatcher instances x concurrency).
+func c22Dispatchers(sc c22Scenario, d c22Dispatch) int {
+	n := 1
+	if sc.Second {
+		n = 2
+	}
+	return n * max(d.Concurrency, 1)
+}
+
 func c22RunDeliveryJob(t *testing.T, j c22Job) (*c22Result, error) {
 	res := &c22Result{Outcomes: map[string]int{}}
 	sc, ok := c22Scenarios()[j.Scenario]
@@ -865,7 +874,8 @@ func c22RunDeliveryJob(t *testing.T, j c22Job) (*c22Result, error) {
 			return
 		}
 		if sc.Second {
-			pubB := &c22Publisher{who: "B", def: "ok", log: &sys.log, logMu: &sys.logMu, hang: sys.pub.hang}
+			// the second dispatcher's publisher draws from the same answer sequence
+			pubB := &c22Publisher{mu: sys.pub.mu, pos: sys.pub.pos, script: sys.pub.script, who: "B", def: "ok", log: &sys.log, logMu: &sys.logMu, hang: sys.pub.hang}
 			second, err = notification.NewStorageMiddleware(sys.inner, sys.w.DB, notification.NewSQLRepository(), pubB, "default", lease, d.cfg(), prometheus.NewRegistry())
 			if err != nil {
 				jobErr = err
@@ -998,6 +1008,9 @@ func c22RunDeliveryJob(t *testing.T, j c22Job) (*c22Result, error) {
 					res.Outcomes["delivered-and-dead-lettered"]++
 				}
 				outcome = append(outcome, "dead-lettered")
+			case still && hangs >= c22Dispatchers(sc, d):
+				// every dispatcher goroutine is blocked in a publish that never returns: nobody is left to deliver
+				outcome = append(outcome, "stuck-no-live-dispatcher")
 			case still:
 				report("entry-stuck", fmt.Sprintf("entry %s is still pending %s after the last mutation (attempts %d, next attempt %s, claim %q until %s); publishes: %d ok, %d failed", r.sig(), horizon, f.Attempts, f.Next.Sub(start), f.Owner, f.Until.Sub(start), oks, fails))
 				outcome = append(outcome, "stuck")
@@ -1007,8 +1020,10 @@ func c22RunDeliveryJob(t *testing.T, j c22Job) (*c22Result, error) {
 			default:
 				outcome = append(outcome, "delivered")
 			}
-			if d.MaxAttempts > 0 && fails+oks+hangs > d.MaxAttempts && hangs == 0 {
-				report("more-attempts-than-configured", fmt.Sprintf("entry %s was published %d times (MaxAttempts %d)", r.sig(), fails+oks, d.MaxAttempts))
+			// an attempt that never returned may be followed by one more (its outcome is unknown), but the
+			// publishes that DID return never exceed MaxAttempts
+			if d.MaxAttempts > 0 && fails+oks > d.MaxAttempts {
+				report("more-attempts-than-configured", fmt.Sprintf("entry %s was published %d times with a definite answer (+%d that never returned), MaxAttempts %d", r.sig(), fails+oks, hangs, d.MaxAttempts))
 			}
 			// retries never come before the backoff has elapsed, nor (liveness) much later
 			for i := 1; i < len(pubs); i++ {
@@ -1161,8 +1176,9 @@ func TestC22(t *testing.T) {
 			if c.d.MaxAttempts == 0 {
 				n = 5 * scs[c.sc].Entries // unlimited retries: every answer sequence of this length, "ok" afterwards
 			}
-			if len(c.al) == 3 && n > 4 {
-				n = 4
+			if len(c.al) == 3 {
+				// one answer more than MaxAttempts: the attempt after a hung last attempt has an answer too
+				n = min(scs[c.sc].Entries*c.d.MaxAttempts+1, 4)
 			}
 			for _, s := range c22Scripts(n, c.al) {
 				jobs = append(jobs, c22Job{Scenario: c.sc, Dispatch: c.d, Script: s})
